@@ -47,7 +47,7 @@ var externalAssumptions = map[string]string{
 	"github.com/kamstrup/intmap.(*Map).Clear": "finite-map semantics: afterwards every key is absent",
 	"github.com/kamstrup/intmap.(*Map).Len":   "returns a non-negative int; no state change",
 	"container/list":                          "list.New/Front/PushFront/Remove: results unconstrained, no program state other than the list modified (the list contents are not modelled)",
-	"bufio":                                   "bufio.NewReader/(*Reader).ReadString: results unconstrained; no program state modified",
+	"bufio":                                   "bufio.NewReader returns a newly allocated reader; (*Reader).ReadString: results unconstrained (it may read ahead into the reader's own buffer); no program state modified",
 }
 
 func shortKey(key string) string {
@@ -72,7 +72,7 @@ func (e *Engine) pureExternal(key string) bool {
 }
 
 func (e *Engine) externalAllocates(key string) bool {
-	return strings.HasPrefix(shortKey(key), "slices.Clone") || strings.HasPrefix(key, "github.com/kamstrup/intmap.")
+	return strings.HasPrefix(shortKey(key), "slices.Clone") || shortKey(key) == "bufio.NewReader" || shortKey(key) == "container/list.New" || strings.HasPrefix(key, "github.com/kamstrup/intmap.")
 }
 
 func (e *Engine) externalComps(key string, fn *ssa.Function) []string {
@@ -121,6 +121,8 @@ func (e *Engine) external(key string, fn *ssa.Function) extFn {
 	}
 	k := shortKey(key)
 	switch k {
+	case "bufio.NewReader", "container/list.New":
+		return extNewObject
 	case "slices.Clone":
 		return extSlicesClone
 	case "slices.Clip":
@@ -497,4 +499,13 @@ func extIntmapLen(x *Exec, fr *Frame, st *State, fn *ssa.Function, args []*SV, s
 	n := x.w.Fresh("im.len", x.w.IS)
 	st.assume(x.w.Le(x.w.Int(0), n))
 	k(st, fr, TV(n))
+}
+
+
+// extNewObject: constructors of opaque library objects - the result is a newly allocated reference.
+func extNewObject(x *Exec, fr *Frame, st *State, fn *ssa.Function, args []*SV, site ssa.Instruction, k callK) {
+	if fr.pure {
+		unsupportedf("%s in pure evaluation", fn)
+	}
+	k(st, fr, TV(x.newRef(st)))
 }
